@@ -37,6 +37,9 @@ pub struct HHunk {
     /// write an empty context line as a bare "\n" (mailers stripping trailing blanks)
     #[serde(default)]
     pub bare_empty_ctx: bool,
+    /// use a localised "\ No newline at end of file" marker (only the backslash matters)
+    #[serde(default)]
+    pub localised_marker: bool,
 }
 
 impl HHunk {
@@ -98,6 +101,7 @@ impl HHunk {
             omit_count_one: self.omit_count_one,
             func: self.func.clone(),
             bare_empty_ctx: self.bare_empty_ctx,
+            localised_marker: self.localised_marker,
         }
     }
 
@@ -132,7 +136,11 @@ impl HHunk {
             out.push(l.tag);
             out.extend_from_slice(&l.text);
             if l.text.last() != Some(&b'\n') {
-                out.extend_from_slice(b"\n\\ No newline at end of file\n");
+                if self.localised_marker {
+                    out.extend_from_slice("\n\\ Kein Zeilenumbruch am Dateiende\n".as_bytes());
+                } else {
+                    out.extend_from_slice(b"\n\\ No newline at end of file\n");
+                }
             }
         }
     }
@@ -262,7 +270,7 @@ pub fn hunks_from_ops(a: &[B], b: &[B], ops: &[Op], c: usize, merge: Merge) -> V
         let _ = b_last;
         let old_start = if old_cnt == 0 { old_first_idx as u64 } else { old_first_idx as u64 + 1 };
         let new_start = if new_cnt == 0 { new_first_idx as u64 } else { new_first_idx as u64 + 1 };
-        hunks.push(HHunk { old_start, new_start, lines, omit_count_one: false, func: None, bare_empty_ctx: false });
+        hunks.push(HHunk { old_start, new_start, lines, omit_count_one: false, func: None, bare_empty_ctx: false, localised_marker: false });
     }
     hunks
 }
